@@ -69,10 +69,12 @@ class Builder:
                 return Enum("Option", 0, ())
             return Enum("Option", 1, [self.value(inner, t)])
         if wrap in ("Vec", "Array"):
-            return Seq([self.value(inner, x) for x in t])
+            return Seq([self.value(inner, x) for x in t], ety=last_seg(inner))
         if wrap == "Box":
             raise Unsupported("Box in template")
         name = last_seg(ty)
+        if name == "LinkIdx" and not isinstance(t, dict):
+            return Struct("LinkIdx", [self.value("u32", t)])
         if isinstance(t, Sym):
             return self.leaf_sym(t)
         if is_quantity(ty) or name in NUM_TYPES:
